@@ -51,15 +51,17 @@ class Ctx:
         self.inline_depth = inline_depth
         self.opaque_count = 0
         self.notes = []
+        self.unroll = 0
 
 
-def eval_function(repo, modname, qual, arg_terms=None, inline_depth=2, refine_guards=True, extra_env=None):
+def eval_function(repo, modname, qual, arg_terms=None, inline_depth=2, refine_guards=True, extra_env=None, unroll=0):
     """Return (outcomes, ctx).  Each outcome: kind in {'ret','raise','fall'}, cond
     (path condition term), value term."""
     fn = repo.func(modname, qual)
     cls = qual.split(".")[0] if "." in qual and "<locals>" not in qual.split(".")[1:2] and qual.split(".")[0] in repo.mod(modname).classes else None
     ctx = Ctx(repo, modname, cls, inline_depth)
     ctx.refine_guards = refine_guards
+    ctx.unroll = unroll              # > 0: for-loops over literal sequences of at most that length are executed element by element
     env = bind_params(fn, arg_terms)
     if extra_env:
         env.update(extra_env)          # e.g. {"self._t": ("epoch", sym)}: kinds/values of object fields
@@ -239,6 +241,9 @@ def exec_stmt(ctx, st, env, cond):
             recv, meth = v.func.value.id, v.func.attr
             if meth in MUTATORS and recv in env:
                 args = [ev(ctx, a, env) for a in v.args]
+                if meth == "append" and env[recv][0] == "list" and len(args) == 1:
+                    env[recv] = env[recv] + (args[0],)       # literal list grows
+                    return [Outcome("fall", cond, None, env)]
                 env[recv] = T.call("." + meth, env[recv], *args)
                 return [Outcome("fall", cond, None, env)]
             if meth == "to_positive" and recv in env:
@@ -370,7 +375,50 @@ def merge_phi(c, a, b):
     return T.phi(c, a, b)
 
 
+def iter_items(it):
+    """elements of a literal iterable term (list/tuple literal, range/zip/enumerate/reversed of
+    literals), or None"""
+    if it[0] in ("tuple", "list"):
+        return list(it[1:])
+    if it[0] == "call" and it[1] == "range" and all(a[0] == "num" and a[1].denominator == 1 for a in it[2:]):
+        return [T.num(i) for i in range(*[int(a[1]) for a in it[2:]])]
+    if it[0] == "call" and it[1] in ("zip", "enumerate", "reversed"):
+        subs = [iter_items(a) for a in it[2:]]
+        if any(x is None for x in subs) or not subs:
+            return None
+        if it[1] == "zip":
+            return [("tuple",) + tuple(xs) for xs in zip(*subs)]
+        if it[1] == "enumerate":
+            return [("tuple", T.num(i), x) for i, x in enumerate(subs[0])]
+        return list(reversed(subs[0]))
+    return None
+
+
+def exec_unrolled(ctx, st, items, env, cond):
+    outs = []
+    env = dict(env)
+    for item in items:
+        assign(ctx, st.target, item, env)
+        r = exec_block(ctx, st.body, env, cond)
+        fall = None
+        for o in r:
+            if o.kind == "fall":
+                fall = o
+            else:
+                outs.append(o)
+        if fall is None:
+            return outs
+        env, cond = dict(fall.env), fall.cond
+    outs.append(Outcome("fall", cond, None, env))
+    return outs
+
+
 def exec_loop(ctx, st, env, cond):
+    if ctx.unroll and isinstance(st, ast.For) and not st.orelse:
+        items = iter_items(ev(ctx, st.iter, env))
+        if items is not None and len(items) <= ctx.unroll and \
+                not any(isinstance(x, (ast.Break, ast.Continue)) for b in st.body for x in ast.walk(b)):
+            return exec_unrolled(ctx, st, items, env, cond)
     ctx.loop_counter += 1
     lid = ctx.loop_counter
     body_assigned = assigned_names(st.body)
@@ -832,6 +880,11 @@ def ev_call(ctx, node, env):
                     return T.call("red", *args)
                 return repo_call(ctx, tgt + "." + meth, args, kws, star_kw)
         recv = ev(ctx, f.value, env)
+        if recv[0] == "dict" and meth == "get" and args and args[0][0] == "str":
+            for k, v in recv[1]:           # literal_dict.get("key"[, default])
+                if k == args[0]:
+                    return v
+            return args[1] if len(args) > 1 else T.NONE
         if recv[0] == "angle":
             if meth == "rad":
                 return T.mul(recv[1], DEG2RAD)
